@@ -1036,6 +1036,9 @@ def rule_K6(run: Run, prog: Program) -> int:
 
 
 # ------------------------------------------------------------------------------------------------ K7: dtype of assembled buffers
+WIDENING_ATTRS = {"normalized_array"}  # coordinates divided by the last one: floating whatever the dtype of the representative
+WIDENING_CALLS = {"sqrt", "csqrt", "sin", "cos", "tan", "arcsin", "arccos", "arctan", "arctan2", "exp", "log", "mean", "average", "hypot", "norm", "inv", "solve", "dist", "angle",
+                  "true_divide", "divide", "reciprocal"}
 BUFFER_MAKERS = {"eye", "zeros", "ones", "empty", "full", "identity"}
 LIKE_MAKERS = {"zeros_like", "ones_like", "empty_like", "full_like"}
 
@@ -1167,11 +1170,41 @@ def _k7_analyse(prog: Program, fn: FunctionInfo, summaries: dict) -> tuple[dict,
     proven: dict[str, tuple] = {}
     call_findings: dict[str, tuple] = {}
     call_proven: dict[str, tuple] = {}
+    wide_findings: dict[str, tuple] = {}
+    wide_proven: dict[str, tuple] = {}
     first = fn.params()[0].arg if fn.cls is not None and not fn.is_staticmethod and fn.params() else ""
     for mask in range(1 << len(tests)):
         truth = {t: bool(mask >> i & 1) for i, t in enumerate(tests)}
         deps: dict[str, set[str]] = {p: {p} for p in params}  # name -> parameters it depends on
         bufs: dict[str, tuple[set[str], ast.stmt]] = {}
+        wide: dict[str, set[str]] = {}  # name -> widening expressions (true division, normalisation, sqrt ...) its value went through
+        buf_wide: dict[str, tuple[set[str], bool]] = {}  # buffer -> (widening expressions its dtype was computed after, dtype names a floating type)
+
+        def tokens_of(e: ast.AST) -> set[str]:
+            """the widening operations the dtype of e went through: their source text, so that `x.normalized_array` is the same token wherever it is written"""
+            if isinstance(e, ast.Compare) or (isinstance(e, ast.UnaryOp) and isinstance(e.op, (ast.Invert, ast.Not))):
+                return set()
+            out_: set[str] = set()
+            if isinstance(e, ast.Name):
+                return set(wide.get(e.id, set()))
+            if isinstance(e, ast.Attribute) and e.attr in WIDENING_ATTRS:
+                out_.add(ast.unparse(e))
+            elif isinstance(e, ast.BinOp) and isinstance(e.op, ast.Div):
+                out_.add(ast.unparse(e))
+            elif isinstance(e, ast.Call):
+                nm_ = e.func.attr if isinstance(e.func, ast.Attribute) else getattr(e.func, "id", "")
+                if nm_.startswith(("is", "logical_")) or nm_ in ("any", "all", "allclose", "array_equal", "nonzero", "argmax", "argmin", "argsort", "shape", "len"):
+                    return set()
+                if nm_ in WIDENING_CALLS:
+                    out_.add(ast.unparse(e))
+            if isinstance(e, ast.Subscript):
+                return out_ | tokens_of(e.value)
+            for ch in ast.iter_child_nodes(e):
+                if isinstance(ch, ast.expr):
+                    out_ |= tokens_of(ch)
+                elif isinstance(ch, ast.keyword):
+                    out_ |= tokens_of(ch.value)
+            return out_
         for st in _linearise(fn.node.body, truth):
             def dep_of(e: ast.AST) -> set[str]:
                 out: set[str] = set()
@@ -1247,15 +1280,24 @@ def _k7_analyse(prog: Program, fn: FunctionInfo, summaries: dict) -> tuple[dict,
                                 made = dep_of(val.args[0])
                     if made is not None:
                         bufs[tgt.id] = (made, st)
+                        dexpr = next((k.value for k in val.keywords if k.arg == "dtype"), None) or (val.args[1] if len(val.args) >= 2 else val.args[0] if val.args else val)
+                        floating = any((isinstance(x, ast.Name) and x.id in ("float", "complex")) or (isinstance(x, ast.Attribute) and x.attr.startswith(("float", "complex", "inexact", "double")))
+                                       for x in ast.walk(dexpr))
+                        buf_wide[tgt.id] = (tokens_of(dexpr), floating)
                     else:
                         bufs.pop(tgt.id, None)
+                        buf_wide.pop(tgt.id, None)
                     deps[tgt.id] = dep_of(val)
+                    wide[tgt.id] = tokens_of(val)
                 elif isinstance(tgt, (ast.Tuple, ast.List)):
                     d = dep_of(val)
+                    w_ = tokens_of(val)
                     for x in ast.walk(tgt):
                         if isinstance(x, ast.Name):
                             deps[x.id] = d
+                            wide[x.id] = set(w_)
                             bufs.pop(x.id, None)
+                            buf_wide.pop(x.id, None)
                 elif isinstance(tgt, ast.Subscript) and isinstance(tgt.value, ast.Name) and tgt.value.id in bufs:
                     pd, cst = bufs[tgt.value.id]
                     pv = dtype_deps(val) - {first}
@@ -1264,12 +1306,52 @@ def _k7_analyse(prog: Program, fn: FunctionInfo, summaries: dict) -> tuple[dict,
                         findings[key] = (st, cst, sorted(pv - pd), sorted(pd))
                     else:
                         proven.setdefault(key, (st, cst))
+                    have_w, floating = buf_wide.get(tgt.value.id, (set(), True))
+                    need_w = tokens_of(val)
+                    if need_w and not floating and not have_w:
+                        # the stored value went through a division / normalisation, the dtype of the buffer was computed before any: the raw operand's dtype
+                        wide_findings[key] = (st, cst, sorted(need_w))
+                    elif need_w:
+                        wide_proven.setdefault(key, (st, cst))
             elif isinstance(st, ast.AugAssign) and isinstance(st.target, ast.Name):
                 deps[st.target.id] = deps.get(st.target.id, set()) | dep_of(st.value)
+                wide[st.target.id] = wide.get(st.target.id, set()) | tokens_of(st.value)
     for k in list(call_proven):
         if k in call_findings:
             del call_proven[k]
-    return findings, proven, {"bad": call_findings, "ok": call_proven}
+    for k in list(wide_proven):
+        if k in wide_findings:
+            del wide_proven[k]
+    return findings, proven, {"bad": call_findings, "ok": call_proven, "wide_bad": wide_findings, "wide_ok": wide_proven}
+
+
+def rule_K7w(run: Run, prog: Program) -> int:
+    run.rule(
+        "E6.K7w",
+        "a buffer assembled by item assignment whose stored value went through a dtype-widening operation (true division, normalized_array, sqrt, "
+        "trigonometry, norm ...) gets its dtype from a value that went through one as well (or names a floating type): a dtype computed from the RAW operand "
+        "is the integer dtype of an integer representative, and the fractional coordinates of the normalised value are truncated - the result then depends "
+        "on the representative",
+    )
+    n = 0
+    for fn in prog.package_functions():
+        if fn.parent is not None:
+            continue
+        res = _k7_analyse(prog, fn, {})
+        if res is None:
+            continue
+        calls = res[2]
+        for key, (st, cst, toks) in calls["wide_bad"].items():
+            n += 1
+            run.add("E6.K7w", fn.short, key, VIOLATION,
+                    f"`{key[:70]}` stores a value that went through `{toks[0][:50]}` into a buffer whose dtype (`{norm_stmt(cst)[:80]}`) is computed from operands that went "
+                    f"through no widening operation: for an integer representative the buffer is an integer array and the fractional value is truncated",
+                    f"{fn.module.rel}:{st.lineno}")
+        for key, (st, cst) in calls["wide_ok"].items():
+            n += 1
+            run.add("E6.K7w", fn.short, key, PROVEN, "the dtype of the buffer is computed from a value that went through a widening operation too (or names a floating type)",
+                    f"{fn.module.rel}:{st.lineno}")
+    return n
 
 
 def rule_K7(run: Run, prog: Program) -> int:
